@@ -8,13 +8,13 @@
 //! reference's error set (agv_refgql::exec::errors_consistent); every error
 //! carries the path and a source location of a field node with that key.
 
-use agv_common::casecheck::{first_diff, replay_fixed, run_static2, CaseOutcome, Compared};
+use agv_common::casecheck::{key_positions, Target, first_diff, replay_fixed, run_static2, CaseOutcome, Compared};
 use agv_common::gen::GenCfg;
 use agv_common::glue::{MenuCfg, Obs};
 use agv_common::s1;
 use agv_engine::explore::{explore, Chooser, Class, ExploreCfg};
 use agv_engine::record::{Cx, Violation};
-use agv_refgql::ast::{ExecDef, ExecDoc, OpKind, Selection};
+use agv_refgql::ast::OpKind;
 use agv_refgql::exec::{errors_consistent, path_str, Ans, Seg};
 use agv_refgql::schema::Schema;
 use serde_json::{json, Value as J};
@@ -31,31 +31,6 @@ const Q_FIELDS: &[(&str, &[&str])] = &[
 ];
 const M_FIELDS: &[(&str, &[&str])] = &[("Mutation", &["inc", "m", "mn", "minn"]), ("A", &["a", "n", "onn", "ln"])];
 const S_FIELDS: &[(&str, &[&str])] = &[("Subscription", &["ev", "evn", "evnn"]), ("A", &["a", "n", "onn", "o", "l"])];
-
-fn key_positions(doc: &ExecDoc, key: &str) -> Vec<(u32, u32)> {
-    fn walk(sel: &[Selection], key: &str, out: &mut Vec<(u32, u32)>) {
-        for s in sel {
-            match s {
-                Selection::Field(f) => {
-                    if f.key() == key {
-                        out.push((f.pos.line, f.pos.col));
-                    }
-                    walk(&f.sel, key, out);
-                }
-                Selection::Inline(i) => walk(&i.sel, key, out),
-                Selection::Spread(_) => {}
-            }
-        }
-    }
-    let mut out = Vec::new();
-    for d in &doc.defs {
-        match d {
-            ExecDef::Op(o) => walk(&o.sel, key, &mut out),
-            ExecDef::Frag(f) => walk(&f.sel, key, &mut out),
-        }
-    }
-    out
-}
 
 struct Cnt {
     not_doc: AtomicU64,
@@ -115,23 +90,7 @@ fn judge_one(cx: &Cx, c: &Compared, obs: &Obs, flavour: &str, event: usize, cnt:
     // "merged-key-resolved-n-times"); a failing such field is then reported once per node. Recognise
     // exactly that shape: the surplus reports are repeats of an expected path, each with the location of
     // another node of the same key. Everything else goes through the general rule below.
-    let mut dedup_paths: Vec<_> = Vec::new();
-    let mut repeated_key_dups = 0usize;
-    for e in &obs.errors {
-        let key = e.path.iter().rev().find_map(|s| if let Seg::Key(k) = s { Some(k.clone()) } else { None }).unwrap_or_default();
-        let nodes = key_positions(&c.doc, &key).len();
-        if dedup_paths.contains(&e.path) && nodes > 1 && obs.errors.iter().filter(|x| x.path == e.path).count() <= nodes {
-            let locs: Vec<_> = obs.errors.iter().filter(|x| x.path == e.path).map(|x| x.locs.clone()).collect();
-            let mut u = locs.clone();
-            u.sort();
-            u.dedup();
-            if u.len() == locs.len() {
-                repeated_key_dups += 1;
-                continue;
-            }
-        }
-        dedup_paths.push(e.path.clone());
-    }
+    let (dedup_paths, repeated_key_dups) = agv_common::casecheck::strip_repeated_key_duplicates(&c.doc, obs);
     if repeated_key_dups > 0 && obs.data == exp_text && errors_consistent(&c.reference.errors, &dedup_paths).is_ok() {
         cx.violation(
             Violation::new(
@@ -176,7 +135,7 @@ fn explore_part(cx: &Cx, refs: &Schema, schema: &s1::S1, gcfg: &GenCfg, flavour:
     let menu = MenuCfg { errors: true, non_finite: false, wrong_kind: false, rich: false };
     let st = explore(
         &ExploreCfg { bounds, ..Default::default() },
-        &|ch: &mut Chooser| match run_static2(refs, schema, gcfg, ch, menu, Class::Dev(1), Some(Class::Dev(2)), None) {
+        &|ch: &mut Chooser| match run_static2(refs, &Target::Static(schema), gcfg, ch, menu, Class::Dev(1), Some(Class::Dev(2)), None) {
             CaseOutcome::NotDoc => {
                 cnt.not_doc.fetch_add(1, Ordering::Relaxed);
                 None
@@ -273,7 +232,7 @@ fn run(cx: &Cx) {
 fn replay(case: &J) -> String {
     let schema = s1::schema();
     let refs = Schema::from_sdl(s1::SDL).unwrap();
-    match replay_fixed(&refs, &schema, case) {
+    match replay_fixed(&refs, &Target::Static(&schema), case) {
         CaseOutcome::Ran(c) => format!(
             "\n query: {}\n world: {}\n expected data: {} errors at {:?}\n got: {}",
             c.text,
